@@ -37,6 +37,10 @@ def gen_tasks(tier, seed):
         base = {"name": name, "starts": [], "ends": []}
         nog = {"optimize_with_greedy": False}
         tasks.append({**base, "cls": "kFlowDecomp", "edges": wedges, "kwargs": {"k": k, "weight_type": "int", "optimization_options": nog}})
+        # greedy shortcut (default options) with k at, one above and three above the number of routes of the flow: the padded solution
+        for kk in (k, k + 1, k + 3):
+            tasks.append({**base, "cls": "kFlowDecomp", "edges": wedges, "kwargs": {"k": kk, "weight_type": "int"}})
+        tasks.append({**base, "cls": "kFlowDecomp", "edges": wedges, "kwargs": {"k": k + 2, "weight_type": "float"}})
         tasks.append({**base, "cls": "MinFlowDecomp", "edges": wedges, "kwargs": {"weight_type": "int", "optimization_options": nog}})
         tasks.append({**base, "cls": "MinFlowDecomp", "edges": wedges, "kwargs": {"weight_type": "float"}})
         tasks.append({**base, "cls": "kLeastAbsErrors", "edges": arb, "kwargs": {"k": min(2, k), "weight_type": "int"}})
